@@ -230,6 +230,76 @@ func (p *c19) RunCase(ctx *runner.Ctx) runner.CaseResult {
 			return x.r
 		}
 	}
+	// the same keys are read again after the tables changed underneath - by every kind of change, also the helper
+	// ClearTable and delete + re-create: a batch read reflects the CURRENT items, as the single reads do
+	for round := 0; round < 2 && len(gets) > 0; round++ {
+		change := mon.Pick(r, []string{"cleartable", "delete-recreate", "delete-some", "overwrite-some", "update-some", "batch-delete-some", "none"})
+		tn := gets[r.Intn(len(gets))].Table
+		var spec adapt.TableSpec
+		for _, s := range specs {
+			if s.Name == tn {
+				spec = s
+			}
+		}
+		switch change {
+		case "cleartable":
+			cl.Do(adapt.Op{Kind: adapt.OpClearTable, Table: tn})
+		case "delete-recreate":
+			cl.Do(adapt.Op{Kind: adapt.OpDeleteTable, Table: tn})
+			cl.Do(createOp(spec))
+		case "batch-delete-some":
+			b := []adapt.BatchEntry{}
+			for i, g := range gets {
+				if i%2 == 0 && len(b) < 25 {
+					b = append(b, adapt.BatchEntry{Table: g.Table, Del: g.Del})
+				}
+			}
+			cl.Do(adapt.Op{Kind: adapt.OpBatchWrite, Batch: b})
+		default:
+			for i, g := range gets {
+				if i%2 != round {
+					continue
+				}
+				switch change {
+				case "delete-some":
+					cl.Do(adapt.Op{Kind: adapt.OpDelete, Table: g.Table, Key: g.Del})
+				case "overwrite-some":
+					it := g.Del.Clone()
+					it["v"] = val.Num(fmt.Sprint(7000 + i))
+					it["rewritten"] = val.Str(fmt.Sprint("round", round))
+					cl.Do(adapt.Op{Kind: adapt.OpPut, Table: g.Table, Item: it})
+				case "update-some":
+					cl.Do(mon.SetUpdate(g.Table, g.Del, "touched", val.Str(fmt.Sprint("round", round))))
+				}
+			}
+		}
+		again := cl.Do(op)
+		x.r.Evals += 1 + len(gets)
+		x.r.Counters["batchget_rereads"]++
+		x.set("rereads_after", change)
+		want2 := map[string][]val.Item{}
+		for _, g := range gets {
+			if o := cl.Do(adapt.Op{Kind: adapt.OpGet, Table: g.Table, Key: g.Del}); o.Item != nil {
+				want2[g.Table] = append(want2[g.Table], o.Item)
+			}
+		}
+		w2 := map[string]interface{}{"adapter": adapter, "specs": specs, "history": hist, "batchget": op, "change_between_reads": change, "changed_table": tn, "outcome": again}
+		if again.Class != adapt.ClsOK {
+			x.viol("batchget-failed", again.Class+"/reread", fmt.Sprintf("[%s] BatchGetItem after %s failed: %s %s", adapter, change, again.Class, again.Msg), w2)
+			break
+		}
+		bad := false
+		for _, s := range specs {
+			if adapt.ItemsSetCanon(again.Resp[s.Name]) != adapt.ItemsSetCanon(want2[s.Name]) {
+				x.viol("batchget-responses-differ", "reread-after/"+change, fmt.Sprintf("[%s] BatchGetItem repeated after %s on %s: responses for %s: %s; individual GetItem calls give %s", adapter, change, tn, s.Name, adapt.ItemsSetCanon(again.Resp[s.Name]), adapt.ItemsSetCanon(want2[s.Name])), w2)
+				bad = true
+				break
+			}
+		}
+		if bad {
+			break
+		}
+	}
 	nun := 0
 	for _, ks := range got.UnprocK {
 		nun += len(ks)
